@@ -19,6 +19,7 @@ from __future__ import annotations
 
 import asyncio
 import copy
+import json
 import math
 import shutil
 import tempfile
@@ -94,12 +95,31 @@ def gen_hp(rng, name, kinds):
         return {"name": name, "kind": "cat", "choices": rng.sample(["a", "b", "c", "d", "e", "relu", "tanh"], k)}
     if kind == "cat_bool":
         return {"name": name, "kind": "cat", "choices": rng.choice([[True, False], [False, True]])}
+    if kind == "cat_mixed":
+        # choices of different Python types (any list holding a str or a bool is a categorical):
+        # the declared objects themselves must come back, not their common NumPy type
+        # (a str with numbers, a str with a bool; bool and numbers are not mixed: NumPy / ConfigSpace
+        # identify True with 1.0)
+        pool = rng.choice([["sqrt", "log2", 1, 0.5], ["balanced", False], ["auto", 3, 0.25, "x"],
+                           ["none", True], ["a", 7], ["adam", 0.5, "sgd", 2]])
+        choices = rng.sample(pool, rng.randint(2, len(pool)))
+        if len({type(c) for c in choices}) < 2 or not any(isinstance(c, str) for c in choices):
+            choices = list(pool)
+        return {"name": name, "kind": "cat", "choices": choices}
     if kind == "ord_int":
         seq = sorted(rng.sample([1, 2, 4, 8, 16, 32, 3, 5], rng.randint(2, 5)))
         return {"name": name, "kind": "ord", "choices": seq}
     if kind == "ord_float":
         seq = sorted(rng.sample([0.1, 0.25, 0.5, 0.9, 1.5, 2.5], rng.randint(2, 4)))
         return {"name": name, "kind": "ord", "choices": seq}
+    if kind == "ord_mixed":
+        # a numeric sequence mixing ints and floats (legal short-hand, e.g. [1, 2.5, 4.5, 8]); it
+        # starts with an int or with a float
+        for _ in range(50):
+            seq = sorted(rng.sample([1, 2, 4, 8, 16, 3, 0.5, 1.5, 2.5, 4.5, 0.25, 6.75], rng.randint(2, 5)))
+            if any(isinstance(v, int) for v in seq) and any(isinstance(v, float) for v in seq):
+                return {"name": name, "kind": "ord", "choices": seq}
+        return {"name": name, "kind": "ord", "choices": [1, 2.5, 4.5, 8]}
     if kind == "const":
         return {"name": name, "kind": "const", "choices": [rng.choice([7, 0.5, "adam"])]}
     raise HarnessError(f"unknown kind {kind}")
@@ -122,7 +142,8 @@ def with_default(rng, hp, force=False):
     return hp
 
 
-ALL_KINDS = ["int", "int_log", "float", "float_log", "cat_str", "cat_bool", "ord_int", "ord_float", "const"]
+ALL_KINDS = ["int", "int_log", "float", "float_log", "cat_str", "cat_bool", "cat_mixed", "ord_int", "ord_float", "ord_mixed",
+             "const"]
 FINITE_KINDS = ["cat_str", "cat_bool", "ord_int", "ord_float"]
 
 
@@ -237,6 +258,12 @@ def _gen_cond(rng, hps, parents, depth):
             v = vals[-1]
         if op == "gt" and v == vals[-1]:
             v = vals[0]
+    if p["kind"] == "float":
+        # thresholds strictly inside the range: ConfigSpace decides activity on its own vector
+        # representation of a float (normalised, through log/exp for log-uniform ranges), which
+        # can differ from the value by an ulp — exactly on a bound that flips `>` / `<`
+        # (assumption listed in the check: parents within 1e-13 of a threshold)
+        v = vals[-1]
     return {"op": op, "parent": p["name"], "value": v}
 
 
@@ -512,6 +539,9 @@ def make_search(cell, problem, log_dir, run=None):
                   filter_duplicated=cell.get("filter_duplicated", True))
         if "acq_optimizer_freq" in cell:
             kw["acq_optimizer_freq"] = cell["acq_optimizer_freq"]
+        if cell.get("initial_points"):
+            # initial points given by the user (list of dicts), handed out before the random ones
+            kw["initial_points"] = [dict(p) for p in cell["initial_points"]]
         if cell["surrogate"] in ("RF", "ET", "TB", "RS"):
             kw["surrogate_model_kwargs"] = {"n_estimators": cell.get("n_estimators", 4)}
         elif cell["surrogate"] == "GBRT":
@@ -579,6 +609,9 @@ def run_session(cell, spec, script):
                     if not now and backlog:
                         now, later = [backlog[0]], backlog[1:]
                     backlog = later
+                    # results of configurations this search never asked for (evaluated elsewhere:
+                    # the `other_results` of a shared storage, a warm start through tell)
+                    now = now + [(dict(c), o) for c, o in step.get("foreign", [])]
                     stage = f"tell#{k}"
                     rnd["hasTell"] = True
                     rnd["results"] = [([x.get(nm, f"<missing {nm}>") for nm in rec["names"]], obj) for x, obj in now]
@@ -739,17 +772,54 @@ def classify_obj(obj):
     return "other"
 
 
+def _mixed_positions(decl):
+    """positions of the numeric sequences that mix ints and floats"""
+    out = []
+    for i, h in enumerate(decl["hps"]):
+        if h["dim"]["t"] == "cat":
+            tags = {c[0] for c in h["dim"]["choices"]}
+            if tags == {"i", "f"}:
+                out.append(i)
+    return out
+
+
+def _as_float(v):
+    return ["f", rat(float(v[1]))] if v[0] == "i" else v
+
+
 def session_request(cell, decl, rec, univ=None):
-    """The `session` request replaying `rec` through Model/Ask.lean."""
+    """The `session` request replaying `rec` through Model/Ask.lean.
+
+    The session model compares configurations the way `_filter_duplicated` (pandas, object
+    columns) does: numbers by value.  The only dimensions on which the same value comes in two
+    Python kinds are numeric sequences mixing ints and floats (`1` from `Space.rvs`, `1.0` from
+    the identity transformer): their values cross the pipe as floats (canonical form; the exact
+    kind of every proposal is judged by the `mem` oracle, not here)."""
+    mixed = _mixed_positions(decl)
+    if mixed:
+        decl = copy.deepcopy(decl)
+        for i in mixed:
+            h = decl["hps"][i]
+            h["dim"]["choices"] = [_as_float(c) for c in h["dim"]["choices"]]
+            if "enc" in h:
+                h["enc"] = [_as_float(c) for c in h["enc"]]
+
+    def cfg(x):
+        e = enc_cfg(x)
+        for i in mixed:
+            if i < len(e):
+                e[i] = _as_float(e[i])
+        return e
+
     rounds = []
     for r in rec["rounds"]:
         rounds.append({
             "n": r["n"],
-            "askDraws": [[enc_cfg(c) for c in d] for d in r["askDraws"]],
-            "X": [enc_cfg(x) for x in r["X"]],
+            "askDraws": [[cfg(c) for c in d] for d in r["askDraws"]],
+            "X": [cfg(x) for x in r["X"]],
             "hasTell": bool(r["hasTell"]),
-            "results": [[enc_cfg(x), classify_obj(o)] for x, o in r["results"]],
-            "tellDraws": [[enc_cfg(c) for c in d] for d in r["tellDraws"]],
+            "results": [[cfg(x), classify_obj(o)] for x, o in r["results"]],
+            "tellDraws": [[cfg(c) for c in d] for d in r["tellDraws"]],
         })
     dummy = cell["search"] == "EDS" or cell.get("surrogate") == "DUMMY"
     strat = MAP_STRATEGY.get(cell.get("strategy", "cl_max"), cell.get("strategy", "cl_max"))
@@ -764,13 +834,42 @@ def session_request(cell, decl, rec, univ=None):
         # L proposals *are* the design (observed, not predicted); L = number of points the
         # generator makes for this space (the grid design can make fewer than n_initial)
         flat = [x for r in rec["rounds"] for x in r["X"]]
-        req["initSamples"] = [enc_cfg(x) for x in flat[: rec.get("design_len", cell["n_initial"])]]
+        req["initSamples"] = [cfg(x) for x in flat[: rec.get("design_len", cell["n_initial"])]]
+    elif cell.get("initial_points"):
+        # initial points given by the user (random design): known exactly, handed out first
+        req["initSamples"] = [cfg([p[nm] for nm in rec["names"]]) for p in cell["initial_points"]]
     if univ is not None:
-        req["univ"] = [enc_cfg(u) for u in univ]
+        req["univ"] = [cfg(u) for u in univ]
     return req
 
 
-def gen_script(rng, n_rounds, max_batch, fail_p=0.2, batches=None, again_p=0.0, moo=False):
+# magnitudes of told objectives: (scale, offset).  Objectives are whatever the run-function returns:
+# accuracies in [0, 1], losses reported as -loss around -1000, rewards of a few hundreds, tiny or
+# huge values.  `Optimizer` sees them negated (and, for some surrogates, not rescaled).
+OBJ_MAGNITUDES = [(1.0, 0.0), (1.0, 0.0), (100.0, 300.0), (30.0, -1000.0), (250.0, 0.0), (1e3, 0.0),
+                  (1e6, 0.0), (1e-5, 0.0), (1.0, 1e4), (5e3, -2e4)]
+
+
+def repeats_initial_point(k, req):
+    """does the batch of round `k` of a session request hand out twice an initial point (given by
+    the user or pre-computed by a design) that it also hands out as such?  Before the wave-3 fix
+    of `Optimizer.ask` the random points completing a batch of initial points were not filtered
+    against them; the model describes the repaired code and departs from such a batch."""
+    if k >= len(req["rounds"]) or not req.get("initSamples"):
+        return False
+    X = [json.dumps(x) for x in req["rounds"][k]["X"]]
+    init = {json.dumps(x) for x in req["initSamples"]}
+    return any(X.count(x) > 1 and x in init for x in X)
+
+
+def gen_script(rng, n_rounds, max_batch, fail_p=0.2, batches=None, again_p=0.0, moo=False, magnitude=None):
+    scale, offset = magnitude or (1.0, 0.0)
+
+    def mag(v):
+        if (scale, offset) == (1.0, 0.0):
+            return v
+        return float(v) * scale + offset
+
     script = []
     for k in range(n_rounds):
         n = batches[k % len(batches)] if batches else rng.randint(1, max_batch)
@@ -780,9 +879,9 @@ def gen_script(rng, n_rounds, max_batch, fail_p=0.2, batches=None, again_p=0.0, 
                 objs.append(rng.choice(["F", "F_timeout", "F_crash"]))
             elif moo:
                 # two objectives (Optimizer._moo_scalarize)
-                objs.append([round(rng.uniform(-3, 3), 3), float(rng.randint(-2, 5))])
+                objs.append([mag(round(rng.uniform(-3, 3), 3)), mag(float(rng.randint(-2, 5)))])
             else:
-                objs.append(rng.choice([round(rng.uniform(-3, 3), 3), float(rng.randint(-2, 5)), rng.randint(-2, 5)]))
+                objs.append(mag(rng.choice([round(rng.uniform(-3, 3), 3), float(rng.randint(-2, 5)), rng.randint(-2, 5)])))
         tell = [rng.random() < 0.8 for _ in range(rng.randint(1, 4))]
         step = {"n": n, "objs": objs, "tell": tell}
         if again_p and k < n_rounds - 1 and rng.random() < again_p:
@@ -879,12 +978,19 @@ def spec_kinds(spec):
         if h["kind"] in ("int", "float"):
             kinds.add(h["kind"] + ("-log" if h.get("log") else ""))
         elif h["kind"] == "cat":
-            kinds.add("cat-" + ("bool" if isinstance(h["choices"][0], bool) else "str"))
+            kinds.add("cat-" + ("mixed" if len({type(c) for c in h["choices"]}) > 1 else
+                                "bool" if isinstance(h["choices"][0], bool) else "str"))
         elif h["kind"] == "ord":
-            kinds.add("ord-" + ("int" if isinstance(h["choices"][0], int) and not isinstance(h["choices"][0], bool) else "float"))
+            kinds.add("ord-" + ord_kind(h["choices"]))
         else:
             kinds.add("const")
     return kinds
+
+
+def ord_kind(choices):
+    """'int' / 'float' / 'mixed' (ints and floats in one sequence)"""
+    ints = [isinstance(v, int) and not isinstance(v, bool) for v in choices]
+    return "int" if all(ints) else ("mixed" if any(ints) else "float")
 
 
 def requirements(cell, spec, option_keys=("surrogate", "acq", "strategy", "design", "filter_failures"), base=None):
